@@ -115,6 +115,18 @@ m("C07-full-verify-always", FMT, "        Ok(proof.compute_root_from(hash) == se
 m("C07-get-proof-expect", PUB, "        let merkle_proof = self.tree.proof(index)?;", "        let merkle_proof = self.tree.proof(index).expect(\"proof should exist\");", "C07")
 m("C07-optimal-capacity-guard-off", OMT, "    fn proof(&self, index: usize) -> Result<Self::Proof> {\n        if index >= self.capacity() {", "    fn proof(&self, index: usize) -> Result<Self::Proof> {\n        if index > self.capacity() {", "C07")
 
+# ---- C15
+m("C15-pm-set-range-flags", PMA, "        for i in start..start + v.len() {", "        for i in start..v.len() {", "C15")
+m("C15-pm-update-next-no-flag", PMA, "        self.cached_leaves_indices[index] = 1;\n        Ok(())\n    }\n\n    fn delete", "        let _ = index;\n        Ok(())\n    }\n\n    fn delete", "C15")
+m("C15-pm-reopen-no-rebuild", PMA, "            if tree.get(i)? != Self::Hasher::default_leaf() {\n                *flag = 1;\n            }", "            let _ = (i, flag);", "C15")
+m("C15-pm-delete-keeps-flag", PMA, "            .map_err(|e| Report::msg(e.to_string()))?;\n        self.cached_leaves_indices[index] = 0;", "            .map_err(|e| Report::msg(e.to_string()))?;", "C15")
+m("C15-opt-set-no-flag", OMT, "        self.next_index = max(self.next_index, index + 1);\n        self.cached_leaves_indices[index] = 1;", "        self.next_index = max(self.next_index, index + 1);", "C15")
+m("C15-opt-set-range-flag-shift", OMT, "            self.cached_leaves_indices[start + i] = 1;", "            self.cached_leaves_indices[i] = 1;", "C15")
+m("C15-full-listing-no-take", FMT, "            .take(self.next_index)\n", "", "C15")
+m("C15-full-delete-flag-only", FMT, "            self.set(index, H::default_leaf())?;\n            self.cached_leaves_indices[index] = 0;", "            self.cached_leaves_indices[index] = 0;", "C15")
+m("C15-opt-override-direct-flags", OMT, "        for &i in indices.iter().filter(|&&i| i < start || i >= end) {\n            self.delete(i)?;\n        }", "        for &i in indices.iter().filter(|&&i| i < start || i >= end) {\n            self.cached_leaves_indices[i] = 0;\n        }", "C15")
+m("C15-pm-listing-filter-ones", PMA, "            .filter(|&(_, &v)| v == 0u8)", "            .filter(|&(_, &v)| v != 1u8 && v != 2u8)", "C15-benign")
+
 
 def main():
     os.makedirs(OUT, exist_ok=True)
